@@ -97,13 +97,15 @@ def is_existing_path(text: str) -> bool:
 
 
 def parse(text: str, stop: bool = False, default_dialect: str = "en", ids: int = 0,
-          parser: Parser | None = None, matcher: TokenMatcher | None = None) -> dict:
+          parser: Parser | None = None, matcher: TokenMatcher | None = None, fresh_ids: bool = False) -> dict:
     """Parser.parse(text, matcher) -> canonical outcome."""
     gen = None
     if parser is None:
         gen = id_gen(ids)
         parser = Parser(RecordingBuilder(gen))
     else:
+        if fresh_ids:
+            parser.ast_builder.id_generator = id_gen(ids)
         gen = parser.ast_builder.id_generator
     parser.stop_at_first_error = stop
     if matcher is None:
@@ -151,8 +153,15 @@ def pickles(text: str, uri: str = "u", default_dialect: str = "en", compiler: Co
             compiler = Compiler(gen)
         else:
             compiler.id_generator = gen
-        ps = compiler.compile({**doc, "uri": uri})
+        wrapped = {**doc, "uri": uri}
+        ps = compiler.compile(wrapped)
         out = {"pickles": ps, "ids": gen._id_counter}
+        end = gen._id_counter
+        compiler.id_generator = id_gen(end - sum(len(p["steps"]) + 1 for p in ps))
+        again = compiler.compile(wrapped)
+        compiler.id_generator = gen
+        if again != ps:
+            out["second_compile_differs"] = True
         if before != doc:
             out["mutated_input"] = True
         return out
@@ -172,6 +181,11 @@ def compile_ast(doc: dict, uri: str, start: int, compiler: Compiler | None = Non
             compiler.id_generator = gen
         ps = compiler.compile(d)
         out = {"pickles": ps, "ids": gen._id_counter}
+        # the same document object compiled again must give the same pickles (ids aside)
+        compiler.id_generator = id_gen(start)
+        again = compiler.compile(d)
+        if again != ps:
+            out["second_compile_differs"] = True
     except Exception as e:
         out = {"crash": f"{type(e).__name__}: {e}"}
     if snapshot != d:
